@@ -157,6 +157,8 @@ func (rc *receiver) do(w []string) (out string) {
 		}
 	}()
 	switch w[0] {
+	case "honestfail":
+		return "honestfail"
 	case "world":
 		if len(w) != 1 {
 			return "bad-op"
@@ -297,10 +299,16 @@ func (rc *receiver) apply() string {
 	return "applied"
 }
 
+var (
+	statMu sync.Mutex
+	stats  = map[string]int{}
+)
+
 func impl(ops []string) []string {
 	setup()
 	outs := make([]string, len(ops))
 	rc := &receiver{}
+	honest := false
 	for i, op := range ops {
 		w := strings.Fields(op)
 		if len(w) == 0 {
@@ -308,6 +316,23 @@ func impl(ops []string) []string {
 			continue
 		}
 		outs[i] = rc.do(w)
+		if w[0] == "cs" {
+			honest = len(w) == 4
+		}
+		if w[0] == "state" || w[0] == "apply" || w[0] == "rawapply" || w[0] == "decode" {
+			k := "tampered:"
+			if honest {
+				k = "honest:"
+			}
+			f := strings.Fields(outs[i])
+			k += w[0] + ":" + f[0]
+			if w[0] == "state" && len(f) == 4 {
+				k += ":" + f[3]
+			}
+			statMu.Lock()
+			stats[k]++
+			statMu.Unlock()
+		}
 	}
 	return outs
 }
@@ -442,7 +467,9 @@ func flipHex(r *rand.Rand, s string) string {
 func gen(r *rand.Rand, thorough bool, i int) []string {
 	wd, err := buildWorld(r, thorough)
 	if err != nil {
-		return []string{"world", "gen-error " + strings.ReplaceAll(err.Error(), " ", "_")}
+		// the engine executed a block but its change set could not be produced (NewBlockStateChange validates what it
+		// built with ComputeProperties): the published state changes do not reproduce the computed state
+		return []string{"world", "honestfail " + strings.ReplaceAll(err.Error(), " ", "_")}
 	}
 	ops := []string{"world"}
 	for _, e := range wd.prevNodes {
@@ -667,6 +694,8 @@ func oracle(ops, outs []string) *corr.Violation {
 			continue
 		}
 		switch w[0] {
+		case "honestfail":
+			return mk("honest-changeset-not-produced", fmt.Sprintf("op %d: NewBlockStateChange of an executed block failed: %s", i, strings.Join(w[1:], " ")))
 		case "world":
 			prevSize, dbSize = 0, -1
 			graph = map[string][]string{}
@@ -757,12 +786,21 @@ func oracle(ops, outs []string) *corr.Violation {
 
 func main() {
 	corr.Main(corr.Prop{
-		ID: "C28", Model: os.Getenv("C28_MODEL"), Gen: gen, Impl: impl, Oracle: oracle,
+		ID: "C28", Model: "C28", Gen: gen, Impl: impl, Oracle: oracle,
 		Cases: func(th bool) int {
 			if th {
 				return 4000
 			}
-			return 120
+			return 250
+		},
+		Extra: func() map[string]interface{} {
+			statMu.Lock()
+			defer statMu.Unlock()
+			m := map[string]interface{}{"node_db": "receiver: util.MemoryNodeDB (previous state) under a LevelNodeDB; generator: real engine over util.MemoryNodeDB"}
+			for k, v := range stats {
+				m[k] = v
+			}
+			return m
 		},
 		Nontrivial: func(ops, outs []string) bool {
 			for _, o := range outs {
